@@ -79,10 +79,13 @@ func (s *Scratch) Write(rel string, data []byte) {
 func (s *Scratch) CopyDriver(name, dst string, extras ...string) {
 	pairs := [][2]string{{name, dst}, {"drv", "drv"}}
 	for _, e := range extras {
-		pairs = append(pairs, [2]string{e, e})
+		pairs = append(pairs, [2]string{e, filepath.Base(e)})
 	}
 	for _, pair := range pairs {
 		src := filepath.Join(s.Home, "drivers", pair[0])
+		if strings.HasPrefix(pair[0], "internal/") {
+			src = filepath.Join(s.Home, pair[0])
+		}
 		ents, err := os.ReadDir(src)
 		if err != nil {
 			vf.Fatal("driver %s: %v", name, err)
